@@ -6,9 +6,9 @@ Chain, part 1: the phases of `BcGen.translateE` composed.
                           work established: `FCore.backLe` for `brnz`, `VG.fw` for `brz`);
 * `translateE_phases`   – `translateE … = .ok p` splits into the four successful phases;
 * `translate_behEqIO`   – the program after the emission phase (`emitOnly`) and the final program are
-                          `BehEqIO`; `translate_behEq_done` is not available: `dead_store_elim` (always) and
-                          `zeroing_move_detection` (`fuse`) only give `BehEqIO` (the tape after a run that
-                          STOPS at a failing I/O operation may differ).
+                          `BehEqIO`.  The strong `BehEq` is not available for either value of `fuse`:
+                          `dead_store_elim` (always) and `zeroing_move_detection` (`fuse`) only give `BehEqIO`
+                          (the tape after a run that STOPS at a failing I/O operation may differ).
 -/
 import Hpbf.Proofs.C02EmitRun
 import Hpbf.Proofs.C02DseEmit
@@ -106,7 +106,7 @@ theorem translateE_phases {prog : Ir.Block w} {numRegs : Nat} {fuse : Bool} {p :
           simp only [bind, Except.bind, h2, h3, h4, pure, Except.pure, Except.ok.injEq] at h
           exact ⟨s1, s2, s3, s4, rfl, h2, h3, h4, h.symm⟩
 
-/-- Conversely the only phases that can fail once the emission succeeded is the register allocation
+/-- Conversely the only phase that can fail once the emission succeeded is the register allocation
 (`allocate_temps`, whose modelled panic sites are not excluded by any theorem): `dead_store_elim` and the late
 passes succeed on generator output. -/
 theorem translateE_ok_of_alloc {prog : Ir.Block w} {numRegs : Nat} {fuse : Bool} {s1 : St w}
